@@ -18,8 +18,7 @@
   Every theorem below is about the executions these guards permit; the lock-step replay
   (lean/Drivers/C17.lean) reports a divergence whenever the real code takes a step the guards forbid.
 -/
-import Babylon.Pages.Count
-import Babylon.Pages.Sched
+import Babylon.Pages.Comp
 
 namespace Babylon.Properties.C17
 open Babylon.Pages Babylon.Core Babylon.Gen.Pages
@@ -182,6 +181,39 @@ theorem batch_dtor_returns_buffers (c : Cfg) (s s1 s2 : State) (t : Tid) (order 
     (hrun : RunT c t s1 s2) (hret : (s2.th t).pc = .retWait) : s2.bufs.flatten = [] :=
   bdInv_done (bdInv_run hrun (bdInv_call hcall hord)) hret
 
+/-- **cached_dtor_returns_all.**  `~CachedPageAllocator` = `try_pop_n<false,false>(cb, capacity())` with a
+callback that frees every popped page upstream.  Called at a quiescent point whose queue has the quiescent
+shape `QShape` (ASSUMED: C01 `bq_inv` at quiescence — tickets `[pop, push)` are pop-ready and hold a token, the
+other slots are push-ready and empty; the replay driver checks `qshapeB`, which implies it, at every quiescent
+point of every trace), and running alone, the destructor returns with an empty cache; exactly the cached pages
+went upstream, nothing else moved. -/
+theorem cached_dtor_returns_all (c : Cfg) (s s0 s' : State) (t : Tid) (ht : t < c.nthreads) (h : Reach c s)
+    (hq : QShape c s) (hcall : callOp c s t .dtor = some s0) (hrun : RunT c t s0 s')
+    (hret : (s'.th t).pc = .retWait) :
+    cacheToks s' = [] ∧ s'.returned = s.returned + (cacheToks s).length ∧ s'.obtained = s.obtained ∧
+      s'.held = s.held ∧ s'.bufs = s.bufs :=
+  dtor_returns_all ht h hq hcall hrun hret
+
+/-- the executable check the driver runs at quiescent points implies `QShape` -/
+theorem qshape_checked (c : Cfg) (s : State) (h : qshapeB c s = true) : QShape c s := qshapeB_sound h
+
+/-- **compensation_terminates (B).**  The compensating wait loop exits once its range is published: if the
+slots `i … num-1` of the current segment carry the expected version (and nobody is inside them), then `num - i`
+steps of the thread — all of them matching version reads — take it to the acquire fence in front of the
+callback, with the ticket counters, the hit counter, the upstream counters and the cache content unchanged:
+no further compensation, no opposite-counter read.
+(Not proved: that the range *does* get published under a fair scheduler — the concurrent progress argument
+needs the full ticket invariant of C01; VRT's deadlock / step-limit verdicts cover it on the sampled
+schedules.  Observation: after a failed compensation the loop re-checks without `S::yield()`, so it relies on
+preemptive scheduling.) -/
+theorem compensation_terminates (c : Cfg) (hcap : 0 < c.cap) (s : State) (t : Tid)
+    (hpc : (s.th t).pc = .rdVer) (hnum : (s.th t).num ≤ c.cap) (hlen : s.slots.length = c.cap)
+    (hi : (s.th t).i < (s.th t).num) (hpub : Published c s t) :
+    ∃ s', runThread c t ((s.th t).num - (s.th t).i) s = some s' ∧ (s'.th t).pc = .fAcq ∧
+      (s'.th t).hit = (s.th t).hit ∧ s'.pushIdx = s.pushIdx ∧ s'.popIdx = s.popIdx ∧
+      s'.obtained = s.obtained ∧ s'.returned = s.returned ∧ cacheToks s' = cacheToks s :=
+  wait_exits_when_published hcap _ s t hpc hnum hlen hi rfl hpub
+
 /-! ## Object pool -/
 
 /-- **pool_strict_bound (1).**  A strict pool never creates or destroys an object by itself: the objects that
@@ -263,5 +295,54 @@ example : ∃ s, Reach demoCfg s ∧ s.held = [1] ∧ cacheToks s = [2] ∧ (s.t
           s.obtained = 3 ∧ s.returned = 0)) = some true := by decide
     rw [hs] at hrest
     exact ⟨s, hr, by simpa using hrest⟩
+
+
+/-- the hypotheses of `cached_dtor_returns_all` are satisfiable, and the destructor does return: capacity 2,
+pages 1 and 2 cached at a quiescent point with the quiescent shape; the destructor runs 10 steps and returns
+with both pages gone upstream -/
+def demoFill : List Move :=
+  [.call 0 (.alloc 2), .act 0, .act 0, .act 0, .act 0, .act 0, .act 0, .act 0, .act 0 1, .act 0, .act 0,
+   .act 0, .act 0, .act 0, .act 0, .act 0, .act 0, .act 0, .act 0 2, .act 0, .act 0,
+   .act 0, .act 0, .act 0, .act 0, .act 0, .act 0, .act 0, .ret 0,
+   .call 0 (.dealloc [1, 2]), .act 0, .act 0, .act 0, .act 0, .act 0, .act 0, .act 0, .ret 0]
+
+example : ∃ s s0 s', Reach demoCfg s ∧ Quiescent demoCfg s ∧ QShape demoCfg s ∧ cacheToks s = [1, 2] ∧
+    callOp demoCfg s 0 .dtor = some s0 ∧ RunT demoCfg 0 s0 s' ∧ (s'.th 0).pc = .retWait ∧
+    cacheToks s' = [] ∧ s'.returned = 2 := by
+  cases hs : run demoCfg (State.init demoCfg) demoFill with
+  | none => exact absurd hs (by decide)
+  | some s =>
+    have hr : Reach demoCfg s := run_reach demoFill _ _ (Reachable.base rfl) hs
+    have hfacts : (run demoCfg (State.init demoCfg) demoFill).map
+        (fun s => quiescentB demoCfg s && qshapeB demoCfg s && decide (cacheToks s = [1, 2])) = some true := by decide
+    rw [hs] at hfacts
+    simp only [Option.map_some, Option.some.injEq, Bool.and_eq_true, decide_eq_true_eq] at hfacts
+    obtain ⟨⟨hq, hsh⟩, hct⟩ := hfacts
+    have hquiet : Quiescent demoCfg s := by
+      intro t ht
+      have := List.all_eq_true.mp hq t (List.mem_range.mpr ht)
+      simpa using this
+    cases hc : callOp demoCfg s 0 .dtor with
+    | none =>
+      exfalso
+      have : ((run demoCfg (State.init demoCfg) demoFill).bind (fun s => callOp demoCfg s 0 .dtor)).isSome = true := by decide
+      rw [hs] at this; simp [hc] at this
+    | some s0 =>
+      cases hd : runThread demoCfg 0 10 s0 with
+      | none =>
+        exfalso
+        have : (((run demoCfg (State.init demoCfg) demoFill).bind (fun s => callOp demoCfg s 0 .dtor)).bind
+            (fun s0 => runThread demoCfg 0 10 s0)).isSome = true := by decide
+        rw [hs] at this; simp [hc, hd] at this
+      | some s' =>
+        have hpc : (((run demoCfg (State.init demoCfg) demoFill).bind (fun s => callOp demoCfg s 0 .dtor)).bind
+            (fun s0 => runThread demoCfg 0 10 s0)).map (fun s' => decide ((s'.th 0).pc = .retWait)) = some true := by decide
+        rw [hs] at hpc; simp [hc, hd] at hpc
+        have hrun := runThread_runT 10 s0 s' hd
+        have hall := cached_dtor_returns_all demoCfg s s0 s' 0 (by decide) hr (qshapeB_sound hsh) hc hrun hpc
+        have hret0 : (run demoCfg (State.init demoCfg) demoFill).map (fun s => s.returned) = some 0 := by decide
+        rw [hs] at hret0; simp at hret0
+        refine ⟨s, s0, s', hr, hquiet, qshapeB_sound hsh, hct, hc, hrun, hpc, hall.1, ?_⟩
+        rw [hall.2.1, hct, hret0]; rfl
 
 end Babylon.Properties.C17
